@@ -6,7 +6,7 @@ ops
   {"op":"new","n_envs":n,"kind":"on","n_steps":k,"a2c":b,"batch":k,"n_epochs":k}
   {"op":"new","n_envs":n,"kind":"off","freq":k,"unit":"step"|"episode","grad_steps":i,
    "learning_starts":k,"policy_delay":k}                      → {"ok":true}       (fresh algorithm)
-  {"op":"call","total":T,"reset":b,"steps":[[stop,dones,kl|null],…]}
+  {"op":"call","total":T,"reset":b,"steps":[[stop,dones,[kl flag per minibatch]|null],…]}
         one `learn` call and the environment steps that happened inside it
                                                                → {"events":[…],"state":{…}}
         errors: learn-while-running, env-step-after-end:<i>    (an input the model says cannot happen)
@@ -40,7 +40,7 @@ def asStepIn (j : Json) : Except String Op := do
   | .ok #[a, b, c] =>
     let stop ← asBool a
     let dones ← asNat b
-    let kl ← (if c.isNull then pure none else some <$> asNat c)
+    let kl ← (if c.isNull then pure [] else asListOf asBool c)
     return Op.env stop dones kl
   | _ => throw s!"bad step input {j.compress}"
 
